@@ -370,7 +370,19 @@ func TestRealRWMutexWriterPreference(t *testing.T) {
 	writerIn := make(chan struct{})
 	go func() { close(writerIn); mu.Lock(); mu.Unlock() }()
 	<-writerIn
-	time.Sleep(100 * time.Millisecond) // let the writer announce
+	// wait (without a fixed sleep) until the writer has announced itself: from then on TryRLock fails
+	announced := false
+	for i := 0; i < 20000 && !announced; i++ {
+		if mu.TryRLock() {
+			mu.RUnlock()
+			time.Sleep(500 * time.Microsecond)
+		} else {
+			announced = true
+		}
+	}
+	if !announced {
+		t.Skip("writer never got to announce itself (machine too loaded); nothing confirmed, nothing refuted")
+	}
 	got := make(chan struct{})
 	go func() { mu.RLock(); mu.RUnlock(); close(got) }()
 	select {
